@@ -78,3 +78,72 @@ P.fn(FI + 'Macro.paragraphs', name='Macro.paragraphs/regroup', params=dict(self=
                             '%s or (%s >= 2 and %s)' % (holds('%s - 1' % NN, '%s - 1' % K), NN, holds('%s - 2' % NN, '%s - 1' % K)), 'len(newnodes[%s - 1]) >= 0' % NN, 'implies(%s >= 2, len(newnodes[%s - 2]) >= 0)' % (NN, NN), 'implies(%s >= 3, len(newnodes[%s - 3]) >= 0)' % (NN, NN)],
                     modifies=[Mod('list:PNode', 'r is self or fresh(r) or any(r is ORIG()[i] and ORIG()[i].level == 10 for i in range(%s))' % NO),
                               Mod('parentNode', 'True'), Mod('blockType', 'fresh(r)')])})
+
+# ---------------------------------------------------------------------------------------------- second phase: the regrouped nodes go back in front of the rest
+P.uninterp('NEW', [], 'seq[PNode]')        # ghost: newnodes at the end of the first phase
+P.uninterp('RESTSEQ', [], 'seq[PNode]')    # ghost: the children left in self at the end of the first phase
+P.fn('PNode.normalize', params=dict(self='PNode', charsubs='opaque=0'), returns='none', trusted=True, allocates=True,
+     modifies=[Mod('list:PNode', 'any(r is NEW()[g] and NEW()[g].level == 10 for g in range(len(NEW())))')],
+     ensures=['self.level == old(self.level)'],
+     notes='normalisation merges / rewrites text nodes inside a paragraph element; it does not touch the child list of self')
+P.fn('PNode.insert', params=dict(self='PNode', i='int', node='PNode'), returns='none', trusted=True,
+     requires=['0 <= i', 'i <= len(self)'],
+     ensures=['len(self) == old(len(self)) + 1', 'self[i] is node', 'all(self[t] is old(seq(self))[t] for t in range(i))',
+              'all(self[t + 1] is old(seq(self))[t] for t in range(i, old(len(self))))'],
+     modifies=[Mod('list:PNode', 'r is self'), Mod('parentNode', 'r is node')], notes='Node.insert (C06) for a plain node at an index in range')
+P.fn(FI + 'Macro.paragraphs', name='Macro.paragraphs/reinsert', params=dict(self='PNode', force='bool=True'), returns='none',
+     start_after_loop=1, stop_after_loop=2, locals={'newnodes': 'list[PNode]', '[]': 'list[PNode]'},
+     start_assume=['len(newnodes) == len(NEW())', 'all(not isnone(NEW()[g]) and newnodes[g] is NEW()[g] for g in range(len(NEW())))',
+                   'len(self) == len(RESTSEQ())', 'all(self[t] is RESTSEQ()[t] for t in range(len(RESTSEQ())))', 'newnodes is not self',
+                   'all(NEW()[g] is not self and NEW()[g] is not newnodes for g in range(len(NEW())))'],
+     # afterwards the children are the regrouped nodes followed by the untouched rest, in order
+     end_ensures=['len(self) == len(NEW()) + len(RESTSEQ())', 'all(self[g] is NEW()[g] for g in range(len(NEW())))',
+                  'all(self[len(NEW()) + t] is RESTSEQ()[t] for t in range(len(RESTSEQ())))'],
+     allocates=True, skip_frame=True, heap_consts=True,
+     calls={'item.normalize': 'PNode.normalize', 'self.insert': 'PNode.insert'},
+     loops={2: Loop(index='i', seq='nn', inv=['i <= len(NEW())', 'len(nn) == len(NEW())', 'all(nn[g] is NEW()[g] for g in range(len(NEW())))',
+                                             'len(self) == i + len(RESTSEQ())', 'all(self[g] is NEW()[g] for g in range(i))',
+                                             'all(self[i + t] is RESTSEQ()[t] for t in range(len(RESTSEQ())))', 'self is old(self)'],
+                    modifies=[Mod('list:PNode', 'r is self or any(r is NEW()[g] and NEW()[g].level == 10 for g in range(len(NEW())))'), Mod('parentNode', 'True')])})
+
+# ---------------------------------------------------------------------------------------------- third phase: only empty / whitespace-only paragraphs are dropped
+P.uninterp('PRE', [], 'seq[PNode]')        # ghost: the children at the start of this phase
+P.uninterp('Q', ['PNode'], 'int')          # ghost labelling of those children by their index
+DROP = '(%s.level == 10 and (len(%s) == 0 or (len(%s) == 1 and %s[0].isElementContentWhitespace)))'
+def drop(x):
+    return DROP % (x, x, x, x)
+NP = 'len(PRE())'
+P.fn('PNode.pop', params=dict(self='PNode', i='int'), returns='PNode', trusted=True, requires=['0 <= i', 'i < len(self)'],
+     ensures=['len(self) == old(len(self)) - 1', 'result is old(seq(self))[i]', 'all(self[t] is old(seq(self))[t] for t in range(i))',
+              'all(self[t] is old(seq(self))[t + 1] for t in range(i, len(self)))'],
+     modifies=[Mod('list:PNode', 'r is self'), Mod('parentNode', 'True')], notes='Node.pop (C06)')
+P.fn(FI + 'Macro.paragraphs', name='Macro.paragraphs/dropempty', params=dict(self='PNode', force='bool=True'), returns='none',
+     start_after_loop=2, locals={'[]': 'list[PNode]'},
+     start_assume=['len(self) == %s' % NP, 'all(not isnone(PRE()[t]) and self[t] is PRE()[t] and Q(PRE()[t]) == t and PRE()[t] is not self for t in range(%s))' % NP,
+                   'all(all(not isnone(PRE()[t][u]) for u in range(len(PRE()[t]))) for t in range(%s))' % NP],
+     ensures=[
+         # what is left is a sub-sequence of the children in their order ...
+         'all(0 <= Q(self[t]) and Q(self[t]) < %s and PRE()[Q(self[t])] is self[t] for t in range(len(self)))' % NP,
+         'all(Q(self[t]) < Q(self[t + 1]) for t in range(len(self) - 1))',
+         # ... from which exactly the empty and the whitespace-only paragraphs have been dropped
+         'all(not %s for t in range(len(self)))' % drop('self[t]'),
+         # (every child that is missing - before the first survivor, between two consecutive survivors, after the last one - is droppable)
+         'all(all(%s for p in range(Q(self[t]) + 1, Q(self[t + 1]))) for t in range(len(self) - 1))' % drop('PRE()[p]'),
+         'implies(len(self) > 0, all(%s for p in range(0, Q(self[0]))) and all(%s for p in range(Q(self[len(self) - 1]) + 1, %s)))' % (drop('PRE()[p]'), drop('PRE()[p]'), NP),
+         'implies(len(self) == 0, all(%s for p in range(%s)))' % (drop('PRE()[p]'), NP)],
+     allocates=True, skip_frame=True, heap_consts=True,
+     calls={'self.pop': 'PNode.pop'},
+     loops={3: Loop(index='k', inv=['-1 <= k', 'k <= %s - 1' % NP, 'self is old(self)', 'k + 1 <= len(self)', 'len(self) <= %s' % NP,
+                                   # the part not yet inspected is untouched
+                                   'all(self[t] is PRE()[t] for t in range(k + 1))',
+                                   'all(0 <= Q(self[t]) and Q(self[t]) < %s and PRE()[Q(self[t])] is self[t] for t in range(len(self)))' % NP,
+                                   'all(Q(self[t]) < Q(self[t + 1]) for t in range(len(self) - 1))',
+                                   'all(Q(self[t]) > k for t in range(k + 1, len(self)))',
+                                   'all(not %s for t in range(k + 1, len(self)))' % drop('self[t]'),
+                                   'all(all(%s for p in range(Q(self[t]) + 1, Q(self[t + 1]))) for t in range(k + 1, len(self) - 1))' % drop('PRE()[p]'),
+                                   'implies(k + 1 < len(self), all(%s for p in range(k + 1, Q(self[k + 1]))) and all(%s for p in range(Q(self[len(self) - 1]) + 1, %s)))'
+                                   % (drop('PRE()[p]'), drop('PRE()[p]'), NP),
+                                   'implies(k + 1 == len(self), all(%s for p in range(k + 1, %s)))' % (drop('PRE()[p]'), NP)],
+                    modifies=[Mod('list:PNode', 'r is self'), Mod('parentNode', 'True')])})
+P.assume('a child list is a list (pop / insert / append / appendChild as list operations: C06); paragraph breaks among the children are bare \\\\par '
+         'tokens; normalisation rewrites text inside a paragraph element only')
